@@ -183,7 +183,7 @@ def run(ctx):
                         if c.local_callee and c.local_callee in F.fns:
                             srcs.add(c.local_callee)
         feed = lib.reachable_fns(F, [F.fns[p] for p in srcs])
-        ctx.floor('ORDER-C23d', len(feed), 50, 'functions feeding the WAL entry fields of a put')
+        ctx.floor('ORDER-C23d', len(feed), 30, 'functions feeding the WAL entry fields of a put')
         ctx.evaluations += len(feed)
         COMMUTATIVE = ('count', 'sum', 'len', 'any', 'all', 'max', 'min', 'contains', 'contains_key', 'is_empty', 'product')
         CUTS = ('truncate', 'select_nth_unstable', 'select_nth_unstable_by', 'select_nth_unstable_by_key', 'first', 'last', 'pop', 'split_off', 'drain', 'take', 'nth', 'swap_remove', 'split_at')
